@@ -533,6 +533,14 @@ def t_invariance():
         "bool-vs-float": (o(True), o(1.0)),
         "int-in-list": (o([0, 0]), o([0.0, 0.0])),
     }
+    # two parameters equal in every fit-relevant attribute but with different
+    # bookkeeping (initial value, standard error, correlations, user data)
+    pa_ = b.make(T_param("q_P", "none"))
+    pb_ = symlmfit.Parameter.__new__(symlmfit.Parameter)
+    pb_.__dict__.update(pa_.__dict__)
+    pa_.init_value, pa_.stderr, pa_.correl, pa_.user_data, pa_.brute_step = 3000.0, None, None, None, None
+    pb_.init_value, pb_.stderr, pb_.correl, pb_.user_data, pb_.brute_step = 12.5, 0.25, {"baseline": 0.5}, "note", 0.1
+    pairs["parameter-bookkeeping-attributes"] = (o(pa_), o(pb_))
     for name, (x, y) in pairs.items():
         res, m = _solve(R.constraints + [R.parse(x) != R.parse(y)], core.cur().timeout_ms)
         _record(f"invariance:{name}", res, m, _model_dict(m) if m is not None else None)
@@ -740,6 +748,30 @@ ba, bb = obj2bytes(P(A)), obj2bytes(P(B))
 print(A, ba); print(B, bb)
 if ba == bb and A != B:
     print("REPRODUCED: parameters with different attributes have the same hash pre-image"); sys.exit(1)
+sys.exit(0)
+'''
+    if task["fn"] == "t_invariance":
+        return common.REPLAY_HEAD + f'''
+import lmfit, hashlib, copy, nanite
+from nanite.fit import obj2bytes, IndentationFitter
+from nanite.model import models_available
+name = {ob["name"]!r}
+h = lambda v: hashlib.md5(obj2bytes(v)).hexdigest()
+bad = False
+if name.endswith("parameter-bookkeeping-attributes"):
+    p1 = models_available["hertz_para"].get_parameter_defaults(); p2 = models_available["hertz_para"].get_parameter_defaults()
+    p1["E"].value = 1234.0            # leaves init_value at the default
+    p2["E"].set(value=1234.0)         # also sets init_value
+    p2["E"].stderr = 0.5; p2["E"].correl = {{"baseline": 0.1}}
+    bad = h(p1["E"]) != h(p2["E"])
+    print("equal fit-relevant attributes, hashes equal:", not bad)
+elif name.endswith("tuple-vs-list"): bad = h((1.5, 2.0)) != h([1.5, 2.0])
+elif name.endswith("dict-insertion-order"): bad = h({{"a": 1.0, "b": 2.0}}) != h({{"b": 2.0, "a": 1.0}})
+elif name.endswith("int-vs-float"): bad = h(3) != h(3.0)
+elif name.endswith("bool-vs-float"): bad = h(True) != h(1.0)
+else: bad = h([0, 0]) != h([0.0, 0.0]) or h([("a", 1.0)]) != h([["a", 1.0]])
+if bad:
+    print("REPRODUCED: representation variant changes the hash:", name); sys.exit(1)
 sys.exit(0)
 '''
     key = task["args"].get("key")
